@@ -5,10 +5,25 @@ from . import sut
 from .rng import sub
 
 
+class LoggingEVSE(sut.EVSE):
+    """User extension through the documented extension point: an EVSE subclass whose overrides do some bookkeeping of their
+    own and delegate to the base class (written against the documented 'Returns: None' of plugin / unplug / set_pilot)."""
+
+    def plugin(self, ev):
+        super().plugin(ev)
+
+    def unplug(self):
+        super().unplug()
+
+    def set_pilot(self, pilot, voltage, period):
+        super().set_pilot(pilot, voltage, period)
+
+
 def build_evse(sid, e):
     if e["type"] == "EVSE":
         mx = float("inf") if e["max"] is None else e["max"]
-        return sut.EVSE(sid, max_rate=mx, min_rate=e.get("min", 0))
+        cls = LoggingEVSE if e.get("sub") else sut.EVSE
+        return cls(sid, max_rate=mx, min_rate=e.get("min", 0))
     if e["type"] == "Deadband":
         mx = float("inf") if e["max"] is None else e["max"]
         return sut.DeadbandEVSE(sid, deadband_end=e["deadband_end"], max_rate=mx)
